@@ -391,6 +391,9 @@ func (engine) Body(r *simdrv.Run) {
 	r.Res.NonTrivial = sim.Switches > 0 && len(sim.TaskNames()) >= 2
 	r.Res.Config["dropped"] = dropped
 
+	if r.Res.Outcome == "harness-panic" {
+		return // the simulator lost track of the system: reported as harness trouble, never as a violation
+	}
 	switch out.Kind {
 	case simrt.Budget:
 		return // inconclusive, counted
